@@ -6,6 +6,7 @@ import VotelibDriver.C05
 import VotelibDriver.C13
 import VotelibDriver.C03
 import VotelibDriver.C12
+import VotelibDriver.C08Seq
 import VotelibDriver.C16
 import VotelibModel.ShapeCompose
 open Lean
@@ -44,7 +45,7 @@ def own (op : String) (j : Json) : Option (Except String Json) :=
   | _ => none
 
 /-- the C08 correspondence re-uses the handlers of the properties owning the models -/
-def handlers : List Handler := [own, C09.handle, C01.handle, C02.handle, C05.handle, C06.handle, C16.handle, C03.handle, C12.handle]
+def handlers : List Handler := [own, C09.handle, C01.handle, C02.handle, C05.handle, C06.handle, C16.handle, C03.handle, C12.handle, C08Seq.handle]
 
 def handle (op : String) (j : Json) : Option (Except String Json) :=
   handlers.firstM (fun (h : Handler) => h op j)
